@@ -121,6 +121,33 @@ func c08Cases(tier string) []c08Case {
 		}
 		add("operation-ids", "operationIds "+strings.Join(ids, " / "), d)
 	}
+	// operationIds equal after mangling that live in DIFFERENT tag packages (legitimate: one Go name per package),
+	// with inline payloads, whose synthesised type names (<Op>OKBody, <Op>Body) are equal as well
+	for _, ids := range [][]string{{"getPet", "get-pet"}, {"list", "List"}, {"get_a", "getA"}} {
+		for _, tagging := range [][]string{{"cats", "dogs"}, {"cats", ""}} {
+			for _, nested := range []bool{false, true} {
+				d := c08Base()
+				for i, id := range ids {
+					o := c08Op(id)
+					if tagging[i] != "" {
+						o["tags"] = A{tagging[i]}
+					}
+					o["parameters"] = A{J{"in": "body", "name": "body", "schema": J{"type": "object", "properties": J{fmt.Sprintf("in%d", i): J{"type": "string"}}}}}
+					out := J{fmt.Sprintf("out%d", i): J{"type": "string"}}
+					if nested {
+						out["nested"] = J{"type": "object", "properties": J{"deep": J{"type": "integer"}}}
+					}
+					o["responses"] = J{"200": J{"description": "ok", "schema": J{"type": "object", "properties": out}}}
+					at(d, "paths", fmt.Sprintf("/q%d", i))["post"] = o
+				}
+				kind := "flat inline payloads"
+				if nested {
+					kind = "nested inline payloads"
+				}
+				add("operation-ids-across-packages", fmt.Sprintf("operationIds %s in tag packages %q / %q with %s", strings.Join(ids, " / "), tagging[0], tagging[1], kind), d)
+			}
+		}
+	}
 	// same operationId twice (invalid unless validation is skipped)
 	{
 		d := c08Base()
